@@ -1,9 +1,11 @@
 //! Simulator-based checks over the real replica, block store and input channel.
+mod c08;
 pub mod engine;
 
 fn main() {
     let env = common::Env::from_args();
     let code = match env.property.as_str() {
+        "C08" => c08::main(&env),
         p => {
             eprintln!("bftsim: unknown property {p}");
             2
